@@ -27,6 +27,8 @@ pub const F_JPANIC: u8 = 1;
 pub const F_JABORT: u8 = 2;
 /// the message's `on_tell_result` panics (only reached when the message was told, not asked)
 pub const F_TRPANIC: u8 = 4;
+/// the handler (a plain fn returning a future) spends wall time synchronously before it returns its future
+pub const F_EAGER: u8 = 8;
 
 #[derive(Clone, Debug)]
 pub struct Body {
